@@ -13,6 +13,8 @@
 # See the License for the specific language governing permissions and
 # limitations under the License.
 
+from shapely.geometry import Polygon
+
 from mapproxy.compat.image import Image, ImageDraw
 from mapproxy.srs import SRS, make_lin_transf
 from mapproxy.image import ImageSource
@@ -66,7 +68,9 @@ def image_mask_from_geom(size, bbox, polygons):
         for ring in p.interiors:
             draw.polygon([transf(coord) for coord in ring.coords], fill=255)
 
-    for p in polygons:
+    # draw large polygons first: a polygon inside the hole of another polygon
+    # must be drawn after that hole
+    for p in sorted(polygons, key=lambda p: Polygon(p.exterior).area, reverse=True):
         # little bit smaller polygon does not include touched pixels outside coverage
         buffered = p.buffer(buffer, resolution=1, join_style=2)
 
